@@ -417,3 +417,12 @@ func init() {
 		fmt.Println(string(b))
 	}
 }
+
+func init() {
+	debugHooks["cond-baseline"] = func(p *ir.Program) {
+		c := &Ctx{P: p, R: report.New("DBG", "quick")}
+		b, _ := json.MarshalIndent(c.condSigs(callPkgs), "", " ")
+		fmt.Println("BASELINE-BEGIN")
+		fmt.Println(string(b))
+	}
+}
